@@ -70,7 +70,7 @@ theorem keys_differencesOf_sublist (sums : Sums) :
       exact List.Sublist.cons _ ih
     | false =>
       simp only [Bool.false_eq_true, if_false]
-      exact List.Sublist.cons₂ _ ih
+      exact List.Sublist.cons_cons _ ih
 
 theorem rabs_eq (q : Rat) : Dec.rabs q = rabs q := rfl
 
@@ -302,7 +302,7 @@ theorem sortStrings_perm (l : List Bytes) : (KV.sortStrings l).Perm l := by
 /-- **message_names_the_differences.**  The UNBALANCED message is assembled from exactly the
     entries of the difference map, each commodity once, with the value the map holds for it
     (so, by `message_numbers_exact`, the exact absolute residual), in sorted order. -/
-theorem message_names_the_differences (d : Sums) (hn : (KV.keys d).Nodup) :
+theorem message_names_the_differences (d : Sums) :
     ((sortedDifferences d).map (·.1)).Perm (KV.keys d) ∧
     ∀ kv ∈ sortedDifferences d, KV.find? d kv.1 = some kv.2 := by
   constructor
@@ -321,7 +321,7 @@ theorem message_names_the_differences (d : Sums) (hn : (KV.keys d).Nodup) :
     | some v => rfl
     | none =>
       exfalso
-      clear hkv hk hn
+      clear hkv hk
       induction d with
       | nil => simp [KV.keys] at hk'
       | cons a r ih =>
